@@ -78,13 +78,15 @@ def execute(ctx, case):
 
     s = Scores(case["pos"], case["neg"], nb_easy_pos=case["ep"], nb_easy_neg=case["en"], score_class=case["sc"], equal_class=case["ec"])
     sm = case["sampler"]
-    cfg = BootstrapConfig(nb_samples=case["nb_samples"], bootstrap_method=case["bm"],
+    cfg = BootstrapConfig(nb_samples=gen.int_form(case["_seed"] // 5, case["nb_samples"]), bootstrap_method=case["bm"],
                           sampling_method=(lambda x: x) if sm == "identity" else ("replacement" if sm == "by_label" else sm),
                           stratified_sampling="by_label" if sm == "by_label" else None)
     np.random.seed(case["_seed"])
     ctx.sess.bs_log.clear()
     ctx.sess.bci_log.clear()
     kw = dict(case["kw"])
+    if kw.get("nb_points") is not None:
+        kw["nb_points"] = gen.int_form(case["_seed"], kw["nb_points"])  # a computed number of points is a numpy integer
     if case["func"] == "roc_with_ci":
         A = score_analysis.roc_with_ci(s, alpha=case["alpha"], config=cfg, x_axis=case["x_axis"], **kw)  # judged by M-band
     else:
@@ -97,6 +99,21 @@ def execute(ctx, case):
         EXP.pointwise_band_ci(s, alpha=case["alpha"], config=cfg, thresholds=A.thresholds, nb_points=None)
         score_analysis.roc(s, thresholds=A.thresholds, nb_points=None, x_axis=case["x_axis"] if case["func"] == "roc_with_ci" else "fpr")
         score_analysis.roc_with_ci(s, alpha=case["alpha"], config=cfg, nb_points=3)  # one more call: re-inspects all kept curves
+    if case["_seed"] % 40 == 7 and len(case["pos"]) + len(case["neg"]) <= 50:
+        # documented defaults: alpha=0.05, the default BootstrapConfig (1000 samples, bca, dynamic, no stratification), x_axis="fpr" and, for
+        # the bands, nb_points=None (one point per scored sample); leaving them all out must mean exactly that
+        explicit = BootstrapConfig(nb_samples=1000, bootstrap_method="bca", sampling_method="dynamic", stratified_sampling=None, smoothing=False, ratio=None)
+        f_ = score_analysis.roc_with_ci if case["func"] == "roc_with_ci" else getattr(EXP, case["func"])
+        if case["func"] != "fixed_width_band_ci":
+            np.random.seed(case["_seed"])
+            with np.errstate(all="ignore"):
+                B1 = f_(s)
+            np.random.seed(case["_seed"])
+            with np.errstate(all="ignore"):
+                B2 = f_(s, alpha=0.05, config=explicit, nb_points=None, **({"x_axis": "fpr"} if case["func"] == "roc_with_ci" else {}))
+            same = all(np.array_equal(np.asarray(getattr(B1, f)), np.asarray(getattr(B2, f)), equal_nan=True) for f in ("fnr", "fpr", "thresholds", "fnr_ci", "fpr_ci"))
+            ctx.sess.check("M-band", same, "band function with alpha/config/nb_points/x_axis left out differs from the documented defaults spelled out",
+                           lambda: {"func": case["func"], "pos": case["pos"], "neg": case["neg"], "seed": case["_seed"]}, sig=("defaults", case["func"]), key="band-defaults")
     ctx.sess.bs_log.clear()
     ctx.sess.sig_counts[("case", case["func"], case["sc"], case["ec"], case["kind"], sm, case["bm"], tuple(sorted(kw)))] += 1
     return True
